@@ -13,11 +13,11 @@ theorem roundNat53_le (n : Nat) (h : n ≤ 2 ^ 53) : roundNat53 n = n := by
     subst this
     decide
 
-theorem indexOfNumber_small (i : Int) (h : i.natAbs ≤ 2 ^ 53) : indexOfNumber i = i := by
+theorem indexThroughFloat_small (i : Int) (h : i.natAbs ≤ 2 ^ 53) : indexThroughFloat i = i := by
   have hr := roundNat53_le i.natAbs h
   have h53 := two53
   have h63 := two63
-  unfold indexOfNumber float64OfInt goIntOfFloat
+  unfold indexThroughFloat float64OfInt goIntOfFloat
   rw [hr]
   by_cases hneg : i < 0
   · simp only [hneg, if_true]
@@ -31,20 +31,25 @@ theorem indexOfNumber_small (i : Int) (h : i.natAbs ≤ 2 ^ 53) : indexOfNumber 
     have : ¬(i < -9223372036854775808 ∨ 9223372036854775808 ≤ i) := by omega
     simp [this]
 
+/-- every Go `int` (an int64) is read back exactly -/
+theorem indexOfNumber_int64 (i : Int) (h : -(2 ^ 63 : Int) ≤ i ∧ i < (2 ^ 63 : Int)) : indexOfNumber i = i := by
+  unfold indexOfNumber
+  rw [if_pos h]
+
 theorem toList_ofList (xs : List Json) : (JList.ofList xs).toList = xs := by
   induction xs with
   | nil => rfl
   | cons x rest ih => simp [JList.ofList, JList.toList, ih]
 
-/-- an element that survives the trip: a UTF-8 clean name, or an index a float64 holds exactly -/
+/-- an element that survives the trip: a UTF-8 clean name, or an index that is a Go `int` -/
 def ElemInDomain : PathElem → Prop
   | .name n => sanitize n = n
-  | .index i => i.natAbs ≤ 2 ^ 53
+  | .index i => -(2 ^ 63 : Int) ≤ i ∧ i < (2 ^ 63 : Int)
 
 theorem decElem_encElem (e : PathElem) (h : ElemInDomain e) : decElem (encElem e) = .ok e := by
   cases e with
   | name n => simp [encElem, decElem, show sanitize n = n from h]
-  | index i => simp [encElem, decElem, indexOfNumber_small i h]
+  | index i => simp [encElem, decElem, indexOfNumber_int64 i h]
 
 theorem decElems_enc (p : Path) (h : ∀ e ∈ p, ElemInDomain e) : decElems (p.map encElem) = .ok p := by
   induction p with
